@@ -378,7 +378,7 @@ def report(out, prop, work):
     # real code against the executable oracle.  It can only add refutations (a concrete failing input is always sound);
     # it reaches code that no contract reaches (e.g. datetime/find.rs as far as the probes exercise it).
     if code == 0 and prop.get("probe", True):
-        budget = int(os.environ.get("VERIF_PROBE_BUDGET", "200000" if out.tier == "thorough" else "3000"))
+        budget = int(os.environ.get("VERIF_PROBE_BUDGET", str(prop.get("probe_budget_thorough", 200000)) if out.tier == "thorough" else "3000"))
         r = replay_mod.probe(REPO, work, pid, out.seed, budget)
         cx = dict(bounded=True, counted_as_proved=False, budget=budget)
         if r.get("error"):
